@@ -39,13 +39,13 @@ func Conformance(cfg *sim.GenesisCfg, keys []sim.Key, tokens []common.Address, p
 		}
 		// the same block on the real application
 		h := n.Height + 1
-		t := n.Time.Add(time.Duration(b.Dt) * time.Second)
+		t := n.Time.Add(b.Delta())
 		reqs := w.BuildReqs(b, &nextID, h)
 		n.EL.ClearRequests()
 		n.EL.NextLocking = reqs
 		n.EL.NextLocking.Gas = nil
 		n.EL.GasAmount = bigFrom(b.Gas)
-		blk := &sim.Block{TimeDelta: time.Duration(b.Dt) * time.Second, Misbehavior: w.Misbehavior(h, t, b.Evidence)}
+		blk := &sim.Block{TimeDelta: b.Delta(), Misbehavior: w.Misbehavior(h, t, b.Evidence)}
 		if len(b.Absent) > 0 {
 			blk.Absent = map[string]bool{}
 			for _, a := range b.Absent {
